@@ -327,7 +327,7 @@ func genC01parse(o *Out, r *Rng, thorough bool) {
 	registerAllBlocks()
 	n := 400
 	if thorough {
-		n = 20000
+		n = 6000
 	}
 	emit := func(kind string, bs []byte, extra ...S) {
 		now := dtnNowMs()
@@ -339,7 +339,7 @@ func genC01parse(o *Out, r *Rng, thorough bool) {
 		o.Case(kind, append([]S{U(now), X(bs), obs}, extra...)...)
 	}
 	for i := 0; i < n; i++ {
-		b := randBundle(r, thorough || i%50 == 0)
+		b := randBundle(r, i%50 == 0) // every 50th bundle may carry a 64 KiB payload (the model's bit-serial CRC makes those slow)
 		bs, err := encodeBundle(&b)
 		if err != nil {
 			o.Case("encfail", dumpBundle(&b))
